@@ -261,6 +261,7 @@ def run_c15(rep):
     import fam_fault
     n, ops, per = sizes(rep, (120, 12, 6), (1500, 30, 12))
     fam_fault.fault_family(rep, n, ops, per, known_classes=known_classes("C15"))
+    fam_fault.failed_choice_invisible(rep)
     # model tie + undo-after-fault on stories that fail at random points
     n2, ops2 = sizes(rep, (300, 14), (4000, 40))
     families.play_family(rep, n2, ops2, features=dict(faults=0.3, stmt_faults=0.25, hooks=0.4, params=0.5, loops=0.5),
@@ -349,12 +350,15 @@ def run_c13(rep):
     n, mf = sizes(rep, (240, 6), (4000, 10))
     fam_include.include_family(rep, n, mf)
     fam_include.history_probes(rep, "C13")
+    fam_include.duplicate_report_probe(rep, "C13")
 
 
 def run_c14(rep):
     import fam_diag
     n = sizes(rep, 40, 400)
     fam_diag.diag_family(rep, n, known_classes=known_classes("C14"))
+    import fam_include
+    fam_include.duplicate_report_probe(rep, "C14")
     text_tie(rep, "c14-text", quick=(500, 300, 100), thorough=(12000, 8000, 2000), line_is_violation=True)
 
 
@@ -393,6 +397,7 @@ def run_c16(rep):
     fam_share.compile_determinism(rep, rep.seed, sizes(rep, 60, 800))
     fam_share.engine_isolation(rep)
     fam_share.inputs_isolation(rep, sizes(rep, 40, 600))
+    fam_share.mutating_sessions(rep)
     import fam_reads
     fam_reads.reads_invisible(rep, sizes(rep, 15, 300), "C16")      # same inputs, same outputs, whatever is read in between
     # compilation is a function of the files as they are NOW: an included file edited between two compilations
